@@ -14,7 +14,8 @@ type c05Case struct {
 	HdrCap int
 	ValCap int
 	Offs   int
-	Cut    int // > 0: deliver the message in two chunks cut at this length (relative to the text start)
+	Cut    int  // > 0: deliver the message in two chunks cut at this length (relative to the text start)
+	WF     bool `json:",omitempty"` // every header value is well formed by construction (no leniently skipped text)
 }
 
 func within(f sipsp.PField, s, e int) bool {
@@ -120,6 +121,13 @@ func evalC05(cs *c05Case) (vs []*Violation, ok bool) {
 				cl = what + "/" + h.Type.String()
 			}
 			add("header-value-inside-its-line", cl, fmt.Sprintf("line %d [%d,%d) val %v type %v", li, l.s, l.e, h.Val, h.Type))
+		}
+		// "the value trimmed of surrounding whitespace": first to last non-blank byte after the colon, as split by the
+		// reference tokenizer
+		// (for headers with a value parser only where the value is well formed by construction: what the value parsers
+		// skip leniently in malformed values, e.g. text after '>', is not the subject)
+		if vs, ve := hs+ref[li][2], hs+ref[li][3]; (cs.WF || !isTableKind(h.Type)) && (ve > vs || h.Val.Len > 0) && (int(h.Val.Offs) != vs || int(h.Val.Offs+h.Val.Len) != ve) {
+			add("value-is-the-trimmed-text-after-the-colon", what+"/"+h.Type.String(), fmt.Sprintf("line %d: val %v = %q, text after the colon trimmed [%d,%d) = %q", li, h.Val, h.Val.Get(buf), vs, ve, buf[vs:ve]))
 		}
 		if h.Val.Len > 0 {
 			if int(h.Val.Offs) < int(h.Name.Offs+h.Name.Len) {
@@ -297,21 +305,28 @@ func checkC05(r *Run) {
 		rec(f, 0)
 	}
 	// dedicated: repeated Contact / PAI / From headers with 1-3 values each
-	cvals := []string{"<sip:a@b>", "sip:c@d;expires=5", "\"x,y\" <sip:e@f>;q=0.1", "Bob <sip:g@h>;tag=t"}
+	cvals := []string{"<sip:a@b>", "sip:c@d;expires=5", "\"x,y\" <sip:e@f>;q=0.1", "Bob <sip:g@h>;tag=t", "Alice \"Al\" <sip:i@j>;tag=9", "\"A\" \"B, C\" <sip:k@l>"}
 	var lists []string
 	for i := range cvals {
 		lists = append(lists, cvals[i])
 		for j := range cvals {
-			lists = append(lists, cvals[i]+", "+cvals[j], cvals[i]+",\r\n "+cvals[j]+" , "+cvals[(i+j)%4])
+			lists = append(lists, cvals[i]+", "+cvals[j], cvals[i]+",\r\n "+cvals[j]+" , "+cvals[(i+j)%len(cvals)])
 		}
+	}
+	wfMsg := map[int]bool{} // messages whose header values are all well formed by construction
+	single := map[string]bool{}
+	for _, v := range cvals {
+		single[v] = true
 	}
 	for _, hn := range []string{"Contact", "m", "P-Asserted-Identity", "From"} {
 		for i, l1 := range lists {
 			for j, l2 := range lists {
-				if (i+j)%r.pick(5, 1) != 0 {
+				if (i+j)%r.pick(5, 1) != 0 && !(hn == "From" && single[l1] && single[l2]) {
 					continue
 				}
 				mid := []string{"", "X-Mid: 1\r\n", "To: <sip:t@t>\r\n"}[(i+j)%3]
+				// (From is single-valued: a list there is accepted leniently and is not "well formed")
+				wfMsg[len(msgs)] = hn != "From" || (single[l1] && single[l2])
 				msgs = append(msgs, "INVITE sip:a SIP/2.0\r\n"+hn+": "+l1+"\r\n"+mid+hn+": "+l2+"\r\nCSeq: 1 INVITE\r\nl: 0\r\n\r\n")
 			}
 		}
@@ -356,6 +371,7 @@ func checkC05(r *Run) {
 		for _, cf := range cfgs {
 			cs := cf
 			cs.Msg = msgs[i]
+			cs.WF = wfMsg[i]
 			vs, ok := evalC05(&cs)
 			c.st.Evals++
 			c.st.Transitions++
@@ -377,6 +393,7 @@ func checkC05(r *Run) {
 		for cut := 1 + i%step; cut < len(msgs[i]); cut += step {
 			cs := cfgs[(i+cut)%len(cfgs)]
 			cs.Msg, cs.Cut = msgs[i], cut
+			cs.WF = wfMsg[i]
 			vs, ok := evalC05(&cs)
 			c.st.Evals++
 			c.st.Transitions += 2
